@@ -81,8 +81,9 @@ def run(ctx):
     rng = ctx.rng
     reqs, metas = [], []
     fam = schemas.family()
-    for si in range(ctx.budget(16, 70)):
-        info = fam[si % len(fam)] if si < len(fam) or rng.random() < 0.3 else schemas.random_schema(rng)
+    for si in range(ctx.budget(70, 300)):
+        info = fam[si % len(fam)] if si < len(fam) or rng.random() < 0.2 else \
+            ((schemas.layered_schema(rng) if rng.random() < 0.3 else None) or schemas.random_schema(rng))
         schema = info.schema
         ctx.driver.add_schema(info)
         types = list(schema.nodes.values())
